@@ -88,7 +88,8 @@ class C12(Check):
                 params.update({"p_service": rng.choice([0.5, 1.0]), "p_sub_function": rng.choice([0.1, 0.5]), "p_identifier": rng.choice([0.3, 1.0]), "p_correct_payload_format": 1.0})
             if "mandatory_services" not in params or 0x10 not in params["mandatory_services"]:
                 params["mandatory_services"] = [0x10, 0x27, 0x22, 0x11, 0x3E]
-            ecus.append({"name": f"ecu{e}", "seed": rng.choice([1, 3, rng.getrandbits(32)]), "params": params, "port": 100 + e})
+            # some ECUs are reachable under two addresses (two gateways / interfaces): both are linked to the one ECU name
+            ecus.append({"name": f"ecu{e}", "seed": rng.choice([1, 3, rng.getrandbits(32)]), "params": params, "port": 100 + e, "two_addresses": rng.random() < 0.3})
         plan["ecus"] = ecus
         n_recs = rng.choice([1, 1, 2, 3])
         recs = []
@@ -112,7 +113,7 @@ class C12(Check):
                 ops = [o for o in ops if not is_silent_op(o)]
             drops = sorted(rng.sample(range(len(ops)), min(len(ops), rng.choice([0, 1, 2, 4])))) if plan["silent"] and ops else []
             lates = sorted(rng.sample(range(len(ops)), min(len(ops), rng.choice([0, 1, 2])))) if plan["silent"] and ops and rng.random() < 0.4 else []
-            recs.append({"ecu": e, "ops": ops, "tag": r + 1, "drops": drops, "lates": lates})
+            recs.append({"ecu": e, "ops": ops, "tag": r + 1, "drops": drops, "lates": lates, "via": rng.randrange(2) if ecus[e]["two_addresses"] else 0})
         plan["recs"] = recs
         plan["replay"] = rng.randrange(n_recs)
         plan["select"] = rng.choice(["name", "props", "both", "none"])
@@ -123,7 +124,7 @@ class C12(Check):
         # the usual workflow: a discovery run found the endpoints (and some others) before any of them was scanned
         plan["discovery"] = None
         if rng.random() < 0.35:
-            urls = [f"tcp-lines://ecu:{e['port']}" for e in ecus] + [f"tcp-lines://other:{k}" for k in range(rng.choice([0, 1, 3]))]
+            urls = [f"tcp-lines://ecu:{e['port']}" for e in ecus] + [f"tcp-lines://ecu-b:{e['port']}" for e in ecus if e["two_addresses"]] + [f"tcp-lines://other:{k}" for k in range(rng.choice([0, 1, 3]))]
             rng.shuffle(urls)
             plan["discovery"] = urls
         plan["db_lat"] = rng.choice([0.0001, 0.002, 0.02])
@@ -214,6 +215,12 @@ class C12(Check):
                 await asyncio.sleep(0)
                 servers[e["name"]] = srv
                 lossy[e["name"]] = tr_
+                if e.get("two_addresses"):
+                    tr_b = LossyTransport(srv, TargetURI(f"tcp://ecu-b:{e['port']}"))
+                    t_b = world.loop.create_task(tr_b.run())
+                    world.vecu_tasks.append(t_b)
+                    await asyncio.sleep(0)
+                    lossy[e["name"] + "/b"] = tr_b
             if plan.get("discovery"):
                 from gallia.command.base import datetime as _dt0
                 from datetime import UTC as _UTC0
@@ -236,7 +243,9 @@ class C12(Check):
                 from datetime import UTC
 
                 await db.insert_run_meta(script="simcheck.c12.Recorder", config=cfg, start_time=_dt.now(UTC).astimezone(), path=None)
-                url = f"tcp-lines://ecu:{e['port']}"
+                via_b = bool(r.get("via")) and e.get("two_addresses")
+                url = f"tcp-lines://{'ecu-b' if via_b else 'ecu'}:{e['port']}"
+                lossy_key = e["name"] + ("/b" if via_b else "")
                 await db.insert_scan_run(url)
                 await db.insert_scan_run_properties_pre(TaggedProperties(run_tag=r["tag"], sw_version=f"v{r['ecu']}"))
                 tr = await TCPLinesTransport.connect(url)
@@ -250,9 +259,9 @@ class C12(Check):
                         world.epoch -= plan["clock_back"]
                         holder["clock_steps"] = holder.get("clock_steps", 0) + 1
                     if oi in r.get("drops", []):
-                        lossy[e["name"]].drop_next = True
+                        lossy[lossy_key].drop_next = True
                     if oi in r.get("lates", []):
-                        lossy[e["name"]].late_next = True
+                        lossy[lossy_key].late_next = True
                         holder["lates"] = holder.get("lates", 0) + 1
                     if "dyn" in op:
                         key = last_seed if last_seed is not None else b"\x00"
@@ -299,7 +308,7 @@ class C12(Check):
         con = sqlite3.connect(dbpath)
         for e in plan["ecus"]:
             cur = con.execute("INSERT INTO ecu(name, oem) VALUES (?, 'default')", (e["name"],))
-            con.execute("UPDATE address SET ecu = ? WHERE url = ?", (cur.lastrowid, f"tcp-lines://ecu:{e['port']}"))
+            con.execute("UPDATE address SET ecu = ? WHERE url IN (?, ?)", (cur.lastrowid, f"tcp-lines://ecu:{e['port']}", f"tcp-lines://ecu-b:{e['port']}"))
         con.commit()
         runs = [r[0] for r in con.execute("SELECT id FROM scan_run ORDER BY id").fetchall()]
         if len(runs) != len(recs):
@@ -409,6 +418,8 @@ class C12(Check):
             bump(res["faults"], "multi_recording_db")
         if plan.get("discovery"):
             bump(res["faults"], "addresses_known_from_discovery_run")
+        if target_rec.get("via") and plan["ecus"][target_rec["ecu"]].get("two_addresses"):
+            bump(res["faults"], "replayed_run_recorded_over_the_ecus_second_address")
         if holder.get("lates"):
             bump(res["faults"], "reply_later_than_the_testers_timeout", holder["lates"])
         if holder.get("clock_steps"):
